@@ -304,7 +304,8 @@ let do_hist id kind trusted reg_text ops_text obs =
           lout_text o :: splice (i + 1) r
         | [] -> []) in
   let out_texts = Array.of_list (splice 0 outs) in
-  let model_obs = String.concat ";" (Array.to_list out_texts @ [storage_text st]) in
+  (* nodes and byte slices handed out by loads are values: nothing later changes them *)
+  let model_obs = String.concat ";" (Array.to_list out_texts @ [storage_text st; "R:ok"]) in
   let model_obs = if !missing then model_obs ^ ";!table-entry-missing" else model_obs in
   (* ---- oracle, on the implementation's observation *)
   let iobs = Array.of_list (split ';' obs) in
@@ -314,7 +315,7 @@ let do_hist id kind trusted reg_text ops_text obs =
   List.iter (function PS (_, _, ptext, _, _) -> if not (proto_in_space ptext) then skip := true | _ -> ()) pops;
   Array.iter (fun o -> if o = "builderr/-" || o = "badlink/-/-" then skip := true) iobs;
   if !skip then ()
-  else if Array.length iobs <> nops + 1 then add_fail fails "malformed_obs"
+  else if Array.length iobs <> nops + 2 then add_fail fails "malformed_obs"
   else begin
     let by_input : (string, string) Hashtbl.t = Hashtbl.create 16 in      (* proto|canon value -> result *)
     let stored : (string, (string * string) list) Hashtbl.t = Hashtbl.create 16 in  (* storage key -> distinct (codec, canon value) *)
@@ -420,6 +421,15 @@ let do_hist id kind trusted reg_text ops_text obs =
                      let rb = bytes_of_hex (String.sub raw 1 (String.length raw - 1)) in
                      (match verify hash l rb with VOk -> () | _ -> add_fail fails "raw_hash"))
               | _ -> add_fail fails "malformed_obs"))) pops;
+    (* what a load returned stays what it was *)
+    let ret = iobs.(nops + 1) in
+    if ret <> "R:ok" then begin
+      let has sub = (let n = String.length sub and m = String.length ret in
+                     let rec go i = i + n <= m && (String.sub ret i n = sub || go (i + 1)) in go 0) in
+      if has "node@" then add_fail fails "loaded_node_changed";
+      if has "raw@" then add_fail fails "loaded_raw_changed";
+      if not (has "node@" || has "raw@") then add_fail fails "malformed_obs"
+    end;
     (* the storage invariant: every block sits under a link it hashes to (memstore: key = link) *)
     let dump = iobs.(nops) in
     if String.length dump > 1 && kind = "mem" then
@@ -559,13 +569,20 @@ let do_reify form trusted rmode plink_hex pstream ptail children obs =
             match hd with
             | Some h' when frm <> "-" -> Buffer.add_string b (lout_text (load_h hasher_ok hash g_decoders RId (form_of frm) h' l))
             | _ -> Buffer.add_char b '-') [now; later]) kids;
+    Buffer.add_string b ";K:ok";   (* what the loads returned stays what it was *)
     let model_obs = Buffer.contents b ^ (if !missing then ";!table-entry-missing" else "") in
     (* ---- oracle: every load through ANY link system handle the library handed out obeys C06
        with the trust the USER declared *)
     let fails = ref [] in
     let skip = ref false in
     (match split ';' obs with
-     | outer_obs :: meta :: kid_obs when List.length kid_obs = 2 * List.length kids ->
+     | outer_obs :: meta :: kid_obs when List.length kid_obs = 2 * List.length kids + 1 ->
+       let kept = List.nth kid_obs (2 * List.length kids) in
+       if kept <> "K:ok" then begin
+         let parts = split ',' (String.sub kept 2 (String.length kept - 2)) in
+         if List.mem "node" parts then add_fail fails "loaded_node_changed";
+         if List.mem "raw" parts then add_fail fails "loaded_raw_changed"
+       end;
        load_oracle ~ok_reify_error:(rm = RFail) fails skip f trusted pl pchunks ptail outer_obs;
        (match split ',' meta with
         | ["inv=1"; ht] ->
